@@ -518,7 +518,7 @@ def r6_lambdas(body, log, ret_macros=True):
     names = []
     n = 0
     while True:
-        m = re.search(r"\bauto\s+(\w+)\s*=\s*\[&\]\s*\(", body)
+        m = re.search(r"\bauto\s+(\w+)\s*=\s*\[[&=]?\w*\]\s*\(", body)   # [&], [&name], [=], []
         if not m:
             break
         name = m.group(1)
@@ -548,7 +548,7 @@ def r6_lambdas(body, log, ret_macros=True):
         names.append(name)
         n += 1
     log.note("R6", n)
-    if re.search(r"\[[&=]?\]\s*\(", body) or re.search(r"\[this\]", body):
+    if re.search(r"\[[&=]?\w*\]\s*\((?:[^()]*\))\s*\{", body) or re.search(r"\[this\]", body):
         raise ExtractionError(f"{log.fn}: an unconverted lambda survives R6")
     return body, names
 
@@ -643,6 +643,51 @@ def check_is_c(text, fn):
 
 # ----------------------------------------------------------------------------------------------- one function
 
+
+def r14_goto_dispatch(body, log):
+    """R14: a goto state machine becomes one dispatch loop.  Everything before the first label runs once (it holds the
+    declarations); from the first label on, `L:` -> `case K: ;` and `goto L;` -> `{ vp_st = K; continue; }` inside
+    `for (;;) { switch (vp_st) { case 0: ; ... } break; }`.  Control flow is unchanged (C allows case labels inside nested
+    blocks); the verifier then sees a single loop instead of one loop per backward goto."""
+    targets = []
+    for m in re.finditer(r"\bgoto\s+(\w+)\s*;", body):
+        if m.group(1) not in targets:
+            targets.append(m.group(1))
+    if not targets:
+        raise ExtractionError(f"{log.fn}: R14 requested but the body has no goto")
+    pos = {}
+    for t in targets:
+        ms = [m for m in re.finditer(r"(?<![\w:?])" + re.escape(t) + r"\s*:(?!:)", body)]
+        if len(ms) != 1:
+            raise ExtractionError(f"{log.fn}: R14 label {t} found {len(ms)} times")
+        pos[t] = ms[0]
+    order = sorted(targets, key=lambda t: pos[t].start())
+    first = pos[order[0]].start()
+    b0 = body.index("{")
+    e0 = match_close(body, b0)
+    pro, rest = body[b0 + 1:first], body[first:e0]
+    if re.search(r"\bgoto\b", pro):
+        raise ExtractionError(f"{log.fn}: R14 goto before the first label")
+    # no declaration may follow the first label (its value would not survive the loop iteration), no label inside a switch
+    for m in re.finditer(r"(?:^|[;{}])\s*([A-Za-z_]\w*)\s+[A-Za-z_]\w*\s*(?:=[^;]*)?;", rest):
+        if m.group(1) not in ("goto", "return", "else", "case", "do"):
+            raise ExtractionError(f"{log.fn}: R14 declaration after the first label: {m.group(0).strip()}")
+    for m in re.finditer(r"\bswitch\s*\(", rest):
+        q = match_close(rest, rest.index("(", m.start()), "(", ")")
+        j = rest.index("{", q)
+        e = match_close(rest, j)
+        for t in targets:
+            if j < pos[t].start() - first < e:
+                raise ExtractionError(f"{log.fn}: R14 label {t} inside a switch")
+    num = {t: k + 1 for k, t in enumerate(order)}
+    for t in targets:
+        rest = re.sub(r"(?<![\w:?])" + re.escape(t) + r"\s*:(?!:)", f"case {num[t]}: /* {t} */ ;", rest, count=1)
+    rest, k = re.subn(r"\bgoto\s+(\w+)\s*;", lambda m: f"{{ vp_st = {num[m.group(1)]}; continue; }}", rest)
+    log.note("R14.goto-dispatch", k)
+    return num, (body[:b0 + 1] + pro + "\n  unsigned vp_st = 0;\n  for (;;) {\n  switch (vp_st) { case 0: ;\n" + rest +
+            "\n  }\n  break;\n  }\n" + body[e0:])
+
+
 class Fn:
     """Extraction + contract spec for one function instance (sidecar entry).
 
@@ -663,7 +708,7 @@ class Fn:
 
     def __init__(self, path, select, name, contract="", nth=0, within=None, constexpr=(), subs=(), sig_subs=(),
                  calls=None, loops=None, piece=None, canary=None, throw_ret="0", pp_defines=(), keep_lambdas=False,
-                 prologue="", scopes=(), derive=None):
+                 prologue="", scopes=(), derive=None, dispatch=False):
         self.path, self.select, self.name, self.contract = path, select, name, contract
         self.nth, self.within = nth, within
         self.constexpr, self.subs, self.sig_subs = list(constexpr), list(subs), list(sig_subs)
@@ -677,6 +722,7 @@ class Fn:
         # body}; the contract / loop contract / canary texts refer to them as @token@, and to the k-th parameter as
         # @k@ - so renaming a parameter or a local in /repo does not break the proof
         self.derive = dict(derive or {})
+        self.dispatch = dispatch     # R14: goto state machine -> one dispatch loop
 
 
 def extract_fn(fn, mutate=False):
@@ -778,6 +824,9 @@ def extract_fn(fn, mutate=False):
         body, k = re.subn(r"(?<![\w.>])" + re.escape(cxx) + r"\s*\(", c + "(", body)
         log.note(f"call:{cxx}->{c}", k)
     body = apply_subs(body, fn.subs, log, "S")
+    if fn.dispatch:
+        stnum, body = r14_goto_dispatch(body, log)
+        binds.update({"st_" + k_: str(v_) for k_, v_ in stnum.items()})   # loop contracts name the states as @st_<label>@
     try:
         _, plist = split_params(sig)
         for k, prm in enumerate(plist):
